@@ -96,6 +96,11 @@ class dict_(dict, metaclass=_TypeShimMeta):
 
     def __new__(cls, *a, **k):
         if a and not isi(a[0], dict):
+            if isi(a[0], SeqZip):
+                from .folds import SeqDict
+                if len(a[0].ms) != 2:
+                    raise Unsupported("dict(zip()) of other than two sequences")
+                return SeqDict(a[0].ms[0], a[0].ms[1])
             m = _materialise(a[0])
             if isi(m, Seq):
                 raise Unsupported("dict() over an abstract sequence of pairs")
